@@ -174,7 +174,9 @@ impl TV {
                         set.push(format!("{:04x}", t));
                     }
                 }
-                format!("set={}", if set.is_empty() { "-".to_string() } else { set.join(".") })
+                // the stored list itself (order, duplicates) as the value re-encodes it
+                let raw = v.to_raw();
+                format!("set={},enc={}", if set.is_empty() { "-".to_string() } else { set.join(".") }, hex_or_dash(&raw.value))
             }
             TV::PasswordAlgorithm(v) => format!("a={}", algo_num(v.algorithm())),
             TV::PasswordAlgorithms(v) => {
